@@ -73,7 +73,7 @@ func (e *Engine) specKeywords() []string {
 }
 
 func (e *Engine) finiteDomain(id string, tmp string) []fdResult {
-	if id != "C11" && id != "C13" && id != "C09" {
+	if id != "C11" && id != "C13" && id != "C09" && id != "C08" && id != "C12" {
 		return nil
 	}
 	kws := e.specKeywords()
@@ -291,11 +291,11 @@ func TestGovcFiniteDomain(t *testing.T) {
 		r.Props = []string{"C11"}
 		res = append(res, r)
 	}
-	if id == "C09" {
+	if id == "C09" || id == "C08" || id == "C12" {
 		// INCLUDE (like every keyword) must end a Description text wherever the cut falls: same bounded check, under C09
-		r3 := mk("directive.IsStartWithDirective/bounded/line-start#1", "BOUNDED (keywords, their prefixes, one inserted/appended byte, 3-digit strings): a Description line starts a directive iff it begins with a keyword (INCLUDE included) or a response code", lsN, lsBad)
+		r3 := mk("directive.IsStartWithDirective/bounded/line-start#1", "BOUNDED (keywords alone, with each byte appended/prepended/inserted, their prefixes; every 3-byte string starting with 1-5, alone and followed by a blank): a Description line starts a directive iff it begins with a keyword (INCLUDE included) or a response code", lsN, lsBad)
 		r3.Goal = strings.Replace(r3.Goal, "complete domain", "bounded sample, not a proof", 1)
-		r3.Props = []string{"C09"}
+		r3.Props = []string{id}
 		res = append(res, r3)
 	}
 	if id == "C13" {
@@ -303,7 +303,7 @@ func TestGovcFiniteDomain(t *testing.T) {
 		r.Props = []string{"C13"}
 		r2 := mk("directive.NewDirectiveType/finite-domain/response-codes#1", "three-digit strings are response codes iff [1-5][0-9][0-9]", rcN, rcBad)
 		r2.Props = []string{"C13"}
-		r3 := mk("directive.IsStartWithDirective/bounded/line-start#1", "BOUNDED (keywords, their prefixes, one inserted/appended byte, 3-digit strings): a Description line starts a directive iff it begins with a keyword or a response code", lsN, lsBad)
+		r3 := mk("directive.IsStartWithDirective/bounded/line-start#1", "BOUNDED (keywords alone, with each byte appended/prepended/inserted, their prefixes; every 3-byte string starting with 1-5, alone and followed by a blank): a Description line starts a directive iff it begins with a keyword or a response code", lsN, lsBad)
 		r3.Goal = strings.Replace(r3.Goal, "complete domain", "bounded sample, not a proof", 1)
 		r3.Props = []string{"C13"}
 		res = append(res, r, r2, r3)
